@@ -94,9 +94,11 @@ def stream_expand_as_right(ctx: Ctx):
         other = torch.arange(numel).reshape(o)
         td = TensorDict({"x": torch.zeros(b + f, dtype=torch.int64)}, batch_size=b)
         try:
-            with time_limit(20):
+            with time_limit(180):
                 r = td + other
             impl = ["ok", ["batch"] + list(r.batch_size), ["idx"] + r["x"].reshape(-1).tolist()]
+        except TimeoutError as e:
+            raise Infra(f"implementation call timed out: {e}")
         except Exception as e:  # noqa: BLE001
             impl = ["err", err_class(e)]
         run.case(("bcast", tuple(b), tuple(o), tuple(f)), nontrivial=True)
@@ -251,7 +253,7 @@ DUNDERS_BINARY = {  # dunder -> (value kinds, model mode, accepted operand kinds
     "__itruediv__": ("float", "pow2", "inplace"), "__ipow__": ("posint", "smallint", "inplace"),
 }
 
-OTHER_MODES_OUT = ["td_same", "td_same", "td_same", "td_missing", "td_extra", "td_both", "scalar", "t0", "t_batch", "t_bcast", "td_empty"]
+OTHER_MODES_OUT = ["td_same", "td_same", "td_same", "td_missing", "td_extra", "td_both", "scalar", "t0", "t_batch", "t_bcast", "td_empty", "td_bcast"]
 OTHER_MODES_INPLACE = ["td_same", "td_same", "td_same", "td_missing", "td_extra", "td_both", "scalar", "t0", "t_batch", "t_bcast"]
 
 
@@ -267,10 +269,21 @@ def run_binary_case(ctx, name, ref, self_kind, other_kind, mode, other_mode, dfl
     s_dfs = L.dfs_order(s_order)
     other = None
     o_leaves, o_dfs, tensor = {}, [], None
+    o_batch = batch
+    if other_mode == "td_bcast":
+        # tensordict operand whose batch size broadcasts against self's (`_maybe_broadcast_other` expands both)
+        if len(batch) == 0:
+            other_mode = "td_same"
+        else:
+            o_batch = tuple(1 if rng.random() < 0.6 else b for b in batch)
+            if o_batch == tuple(batch):
+                o_batch = (1,) + tuple(batch[1:])
     if other_mode.startswith("td_"):
-        o_order, o_leaves = gen_other_td(ctx, s_dfs, batch, other_kind, other_mode)
+        o_order, o_leaves = gen_other_td(ctx, s_dfs, o_batch, other_kind, "td_same" if other_mode == "td_bcast" else other_mode)
         o_dfs = L.dfs_order(o_order)
-        other = L.build_td(o_leaves, o_order, batch, lock=lock_o)
+        other = L.build_td(o_leaves, o_order, o_batch, lock=lock_o)
+        if other_mode == "td_bcast":
+            o_leaves = {p: v.expand(tuple(batch) + L.FEAT[p]) for p, v in o_leaves.items()}
         o_sx = ["td", L.paths_sx(o_dfs)]
     elif other_mode == "scalar":
         other = scalar_for(ctx, other_kind)
@@ -293,6 +306,13 @@ def run_binary_case(ctx, name, ref, self_kind, other_kind, mode, other_mode, dfl
     run.count(site + ".other", other_mode)
     run.count(site + ".default", dflt_mode)
     run.count(site + ".op", name)
+    # `alpha=` of add / sub (and in-place forms): a scalar keyword handed to torch unchanged for every key
+    extra_kw = {}
+    if name in ("add", "sub", "add_", "sub_") and rng.random() < 0.25:
+        extra_kw = {"alpha": 2}
+        base_ref = ref
+        ref = lambda x, y, _f=base_ref: _f(x, y, alpha=2)  # noqa: E731
+        run.count(site + ".kwarg", "alpha")
 
     # ---- model
     ans = ctx.drv.ask(sx("c09.binop", "inplace" if inplace else "out", L.paths_sx(s_dfs), o_sx, None if dflt_mode == "none" else dflt_mode))
@@ -320,8 +340,8 @@ def run_binary_case(ctx, name, ref, self_kind, other_kind, mode, other_mode, dfl
         if name.startswith("__"):
             return getattr(self_td, name)(other)
         if dflt is not None:
-            return getattr(self_td, name)(other, default=dflt)
-        return getattr(self_td, name)(other)
+            return getattr(self_td, name)(other, default=dflt, **extra_kw)
+        return getattr(self_td, name)(other, **extra_kw)
     r = L.impl_call(call)
     if r[0] == "ok" and lock_s and not inplace:
         r2 = L.impl_call(call)    # memoised _items_list of a locked operand: second call must agree
@@ -463,6 +483,12 @@ def run_ternary_case(ctx, name, inplace):
     run, rng = ctx.run, ctx.rng
     sk, k1, k2, scalar2 = TERN[name]
     ref = _tern_ref(name)
+    tern_kw = {}
+    if name in ("addcmul", "addcdiv") and rng.random() < 0.3:
+        tern_kw = {"value": 2 if name == "addcmul" else 0.5}
+        base = getattr(torch.Tensor, name)
+        ref = lambda x, a, b, _v=tern_kw["value"]: base(x, a, b, value=_v)  # noqa: E731
+        run.count("ternary.kwarg", "value")
     batch, s_order, s_leaves = gen_self(ctx, sk)
     lock_s = rng.random() < 0.3
     self_td = L.build_td({p: v.clone() for p, v in s_leaves.items()}, s_order, batch, lock=lock_s)
@@ -525,7 +551,7 @@ def run_ternary_case(ctx, name, inplace):
         except Exception as e:  # noqa: BLE001
             model = ["ref-undefined", err_class(e)]
     # implementation
-    r = L.impl_call(lambda: getattr(self_td, name + ("_" if inplace else ""))(ops[0], ops[1]))
+    r = L.impl_call(lambda: getattr(self_td, name + ("_" if inplace else ""))(ops[0], ops[1], **tern_kw))
     if r[0] == "err":
         impl = ["err", r[1]]
     else:
@@ -715,7 +741,8 @@ def stream_unary(ctx: Ctx):
     run, rng = ctx.run, ctx.rng
     import tensordict.base as B
     names = [n for n, info in ctx.table.items() if info["nargs"] == 0 and not n.endswith("_") and n in L.UNARY_SAFE_DOMAIN]
-    unknown = [n for n, info in ctx.table.items() if info["nargs"] == 0 and not n.endswith("_") and n not in L.UNARY_SAFE_DOMAIN and not n.startswith("_")]
+    unknown = [n for n, info in ctx.table.items() if info["nargs"] == 0 and not n.endswith("_") and n not in L.UNARY_SAFE_DOMAIN and not n.startswith("_")
+               and n != "norm"]      # norm(): 0-d result per leaf, checked by the extended oracle
     if unknown:
         run.notes.append(f"unary fused methods without a value domain in c09_lib.UNARY_SAFE_DOMAIN (tested on 'any'): {unknown}")
     names += [n for n in unknown if hasattr(torch.Tensor, n) and n not in ("norm", "zero_grad", "clone")]
@@ -1050,6 +1077,35 @@ def extended_oracle(ctx: Ctx):
         run.case(("lazy_stackdims", name, k, it))
         run.count("container.kind", "lazy_stack(different stack dims)")
         _check_td(ctx, "container", case, f"lazy:{name}:stackdim-mismatch", lambda: getattr(lz0, name)(lz1), {p: tf(A[p], Bv[p]) for p in A}, [k, k])
+    # ---- comparison operators across container kinds, with ties (reflected operators must be the mirror, not the inverse)
+    try:
+        TCc = _make_tc()
+    except Exception:  # noqa: BLE001
+        TCc = None
+    kinds = ["dense", "lazy0", "lazy1"] + (["tc"] if TCc is not None else [])
+
+    def wrap(kind, vals, batch):
+        td = L.build_td(vals, [("a",), ("b",)] if rng.random() < 0.5 else [("b",), ("a",)], batch)
+        if kind == "dense":
+            return td
+        if kind.startswith("lazy"):
+            d = int(kind[-1])
+            return lazy_stack([m.clone() for m in td.unbind(d)], d)
+        return TCc(a=vals[("a",)], b=vals[("b",)], batch_size=list(batch))
+    cmp_ops = [("__eq__", torch.eq), ("__ne__", torch.ne), ("__ge__", torch.ge), ("__gt__", torch.gt), ("__le__", torch.le), ("__lt__", torch.lt)]
+    pairs = [(x, y) for x in kinds for y in kinds if not (x == "dense" and y == "dense")]
+    for it in range(ctx.n(3, 12)):
+        for lk, rk in pairs:
+            batch = (2, 3)
+            lv = {("a",): L.gen_vals(rng, batch, "smallint"), ("b",): L.gen_vals(rng, batch + (2,), "smallint").double()}
+            rv = {("a",): L.gen_vals(rng, batch, "smallint"), ("b",): L.gen_vals(rng, batch + (2,), "smallint").double()}
+            lhs, rhs = wrap(lk, lv, batch), wrap(rk, rv, batch)
+            for name, tf in cmp_ops:
+                case = {"op": name, "lhs": lk, "rhs": rk, "batch": list(batch)}
+                run.case(("container_cmp", name, lk, rk, it))
+                run.count("container.kind", f"cmp:{lk}-vs-{rk}")
+                _check_td(ctx, "container", case, f"cmp:{name}:{lk}-vs-{rk}", lambda: getattr(lhs, name)(rhs),
+                          {k: tf(lv[k], rv[k]) for k in lv}, batch)
     # ---- tensorclass
     try:
         TC = _make_tc()
@@ -1189,6 +1245,13 @@ def extended_oracle(ctx: Ctx):
             except Exception:  # noqa: BLE001
                 ok = False
             run.oracle_ok("reduction") if ok else run.oracle_fail("reduction", {"op": nm, "dim": pd, "batch": list(batch)}, "values/indices differ from torch per key", f"{nm}:indices:values")
+    # ---- norm(): fused, one 0-d result per leaf, batch_size []
+    for it in range(ctx.n(10, 60)):
+        batch, s_order, s_leaves = gen_self(ctx, "float")
+        td = L.build_td(s_leaves, s_order, batch, lock=rng.random() < 0.3)
+        run.case(("norm", tuple(s_order), tuple(batch)))
+        _check_td(ctx, "unary", {"op": "norm", "batch": list(batch), "self": [".".join(p) for p in L.dfs_order(s_order)]}, "norm",
+                  lambda: td.norm(), {p: v.norm() for p, v in s_leaves.items()}, [])
     # ---- dict operand of an arithmetic method: torch gives nothing for (tensor, dict); the code must not return garbage
     td = L.build_td({("a",): torch.tensor([1, 2, 3])}, [("a",)], (3,))
     r = L.impl_call(lambda: td + {"a": torch.tensor([1, 1, 1])})
@@ -1197,3 +1260,119 @@ def extended_oracle(ctx: Ctx):
         run.oracle_fail("binary", {"op": "__add__", "other": "dict"}, "td + dict returned something else than the keyed sum", "__add__:dict:values")
     else:
         run.oracle_ok("binary")
+
+
+# =========================================================================== reduce=True (modelled)
+
+def stream_reduce_true(ctx: Ctx):
+    run, rng = ctx.run, ctx.rng
+    names = ["sum", "nansum", "prod", "amax", "amin", "max", "min", "mean", "nanmean", "std", "var"]
+    import tensordict.base as B
+    names = [n for n in names if "reduce" in inspect.signature(getattr(B.TensorDictBase, n)).parameters]
+    for it in range(ctx.n(400, 2400)):
+        name = rng.choice(names)
+        batch = rng.choice([(2, 3), (3,), (2, 1, 3)])
+        nd = len(batch)
+        spell = rng.choice(["nodef", "nodef", "feature", "feature", "int", "int", "tuple", "none"])
+        paths = [("a",), ("b",), ("n", "x")]
+        order = list(paths); rng.shuffle(order)
+        kind = "smallint" if name in ("sum", "prod", "amax", "amin", "max", "min") else "float"
+        if spell in ("nodef", "feature"):
+            # leaves with DIFFERENT numbers of elements: reducing leaf by leaf and combining is not the reduction of all values
+            feats = {p: f for p, f in zip(paths, rng.sample([(), (2,), (3,), (2, 2), (1,)], 3))}
+        else:
+            f0 = rng.choice([(), (2,)])
+            feats = {p: f0 for p in paths}
+        leaves = {p: L.gen_vals(rng, tuple(batch) + feats[p], kind) for p in paths}
+        if name in ("nansum", "nanmean") and rng.random() < 0.7:
+            for p in paths:     # a different number of NaNs in every leaf
+                flat_ = leaves[p].reshape(-1)
+                for i in rng.sample(range(flat_.numel()), rng.randint(0, max(0, flat_.numel() - 1))):
+                    flat_[i] = float("nan")
+        td = L.build_td(leaves, order, batch, lock=rng.random() < 0.3)
+        dfs = L.dfs_order(order)
+        feat = feats[paths[0]]
+        keep = rng.choice(["nodef", "nodef", True, False]) if name not in ("prod",) else "nodef"
+        kw = {"reduce": True}
+        if spell == "nodef":
+            dim_sx = "nodef"
+        elif spell == "feature":
+            dim_sx = "feature"; kw["dim"] = "feature"
+        elif spell == "none":
+            dim_sx = None; kw["dim"] = None
+        elif spell == "int":
+            d = rng.randint(-nd - 1, nd); dim_sx = ["int", d]; kw["dim"] = d
+        else:
+            t = tuple(rng.sample(range(-nd, nd), rng.randint(1, min(2, nd))))
+            if len({x % nd for x in t}) < len(t) or name in ("prod", "max", "min"):
+                continue
+            dim_sx = ["tuple"] + list(t); kw["dim"] = t
+        if keep != "nodef":
+            kw["keepdim"] = keep
+        case = {"op": name, "batch": list(batch), "feats": {".".join(p): list(f) for p, f in feats.items()}, "order": [".".join(p) for p in dfs],
+                "dim": str(kw.get("dim", "absent")), "keepdim": str(keep)}
+        run.case(("reduce_true", name, tuple(batch), str(feats), str(dim_sx), str(keep), tuple(dfs)), nontrivial=True)
+        run.count("reduce_true.dim", spell)
+        ans = parse_sx(ctx.drv.ask(sx("c09.reduce_true", list(batch), dim_sx, keep if keep != "nodef" else "nodef")))
+        vals = [leaves[p] for p in dfs]          # `_values_list(True, True)` order
+        try:
+            if ans[0] == "err":
+                model = ["err", ans[1]]
+            elif ans[1] == "flatall":
+                model = ["ok", _canon_any(getattr(torch, name)(torch.cat([v.contiguous().flatten() for v in vals], 0)))]
+            elif ans[1] == "feature":
+                vv = [(v.flatten(nd, -1) if v.ndim > nd else v.unsqueeze(-1)) for v in vals]
+                model = ["ok", _canon_any(getattr(torch, name)(torch.cat(vv, -1), dim=-1, keepdim=False))]
+            else:
+                _, c, ds, single, kd = ans[1]
+                k2 = {} if kd == "nodef" else {"keepdim": kd == "true"}
+                model = ["ok", _canon_any(getattr(torch, name)(torch.cat(vals, c), dim=(ds[0] if single == "true" else tuple(ds)), **k2))]
+        except Exception as e:  # noqa: BLE001  torch rejects the call the model (and the code) makes
+            model = ["err", err_class(e)]
+        r = L.impl_call(lambda: getattr(td, name)(**kw))
+        impl = ["err", r[1]] if r[0] == "err" else ["ok", _canon_any(r[1])]
+        run.corr("reduce_true", case, impl, model)
+        # oracle, independent of the model: torch on the concatenation of ALL values (no dim) / of the flattened features
+        if spell in ("nodef", "feature") and keep is not True:
+            try:
+                if spell == "nodef":
+                    want = getattr(torch, name)(torch.cat([v.reshape(-1) for v in leaves.values()]))
+                else:
+                    want = getattr(torch, name)(torch.cat([v.reshape(list(batch) + [-1]) for v in leaves.values()], -1), dim=-1)
+                want = _canon_any(want)
+            except Exception:  # noqa: BLE001
+                want = None
+            if want is None:
+                run.count("reduce_true.oracle_skipped", spell)
+            elif impl[0] != "ok":
+                run.oracle_fail("reduction", case, f"reduce=True raised {r[2] if r[0] == 'err' else impl}", f"{name}:reduce:{spell}:raises")
+            elif not _close(impl[1][1] if impl[1][0] == "tuple" else impl[1], want[1] if want[0] == "tuple" else want):
+                # (for min/max only the values are compared: indices into the concatenation depend on the concatenation order)
+                run.oracle_fail("reduction", case, f"reduce=True gives {str(impl[1])[:120]}, torch on all the values gives {str(want)[:120]}", f"{name}:reduce:{spell}:values")
+            else:
+                run.oracle_ok("reduction")
+
+
+def _canon_any(x):
+    """tensor, or a (values, indices) named tuple"""
+    if isinstance(x, torch.Tensor):
+        return L.canon_tensor(x)
+    if isinstance(x, tuple) and hasattr(x, "values"):
+        return ["tuple", L.canon_tensor(x.values), L.canon_tensor(x.indices)]
+    return ["py", type(x).__name__]
+
+
+def _close(a, b):
+    """canonical tensors equal up to a relative 1e-9 on floats (the concatenation order of the oracle may differ)"""
+    if a == b:
+        return True
+    if a[0] == "tuple" or b[0] == "tuple" or a[:2] != b[:2]:
+        return False
+    for x, y in zip(a[2], b[2]):
+        if x == y:
+            continue
+        if isinstance(x, str) or isinstance(y, str):
+            return False
+        if abs(x - y) > 1e-9 * max(1.0, abs(x), abs(y)):
+            return False
+    return True
